@@ -34,7 +34,8 @@ klass(f"{M}:StreamStatistics", fields={
 
 klass("aiortc.rtp:RtpPacket", fields={
     "version": "int", "marker": "int", "payload_type": "int", "sequence_number": "int", "timestamp": "int",
-    "ssrc": "int", "csrc": "list[int]", "payload": "bytes", "padding_size": "int"})
+    "ssrc": "int", "csrc": "list[int]", "payload": "bytes", "padding_size": "int",
+    "_data": "bytes"})   # _data: depayloaded media, attached by RTCRtpReceiver before JitterBuffer.add
 
 contract(f"{M}:StreamStatistics.__init__", params={"clockrate": "int"},
          ensures=["self.packets_received == 0", "self.max_seq is None", "self._clockrate == clockrate"],
